@@ -129,7 +129,7 @@ Definition spec_ok (c : cfg) (g : list (addr * acct)) (hist : list blk)
   (* the durable invariant on the real disk *)
   (bad =? 0) && (earliest <=? dbr) && (dbr <=? nblocks) &&
   ((dbr =? 0) || (dbr + c_L c <=? nblocks)) &&
-  (prev <=? nblocks) && (nblocks <=? added) && (added <=? length hist) &&
+  (prev <=? nblocks) && (nblocks <=? added) && (added <=? List.length hist) &&
   (confirmed <=? nblocks) &&
   (* OpenLedger: exactly the durable prefix *)
   ok && (latest =? nblocks) && (bad2 =? 0) && (dbr <=? dbr2) && (dbr2 <=? latest) &&
